@@ -77,6 +77,22 @@ func announcedLength(pref string, data []byte) (*big.Int, bool) {
 	return nil, false
 }
 
+// prefixWidth is the number of bytes of a variable-length prefix that announcedLength can read, -1 otherwise
+func prefixWidth(pref string) int {
+	dot := strings.Index(pref, ".")
+	if dot < 0 || strings.HasSuffix(pref, "Fixed") || strings.Trim(pref[dot+1:], "L") != "" {
+		return -1
+	}
+	k := len(pref) - dot - 1
+	switch pref[:dot] {
+	case "Binary", "ASCII":
+		return k
+	case "Hex":
+		return 2 * k
+	}
+	return -1
+}
+
 func init() {
 	// ---- C05, message level ----
 	regCheck("C05", "msg", func(a []*Sx) (bool, []Finding) {
@@ -181,6 +197,31 @@ func init() {
 			}
 			return true, fs
 		}
+		if d := firstOpArg(a[1].List, "unpack"); d != nil && spec.Head() == "C" {
+			// a composite whose prefix announces more bytes than follow it must be rejected (the announced length is read
+			// here without the library)
+			pref := spec.Args()[0].Atom
+			ann, ok := announcedLength(pref, d.Hex())
+			w := prefixWidth(pref)
+			if !ok || w < 0 || len(d.Hex()) < w || ann.Cmp(big.NewInt(int64(len(d.Hex())-w))) <= 0 {
+				return false, nil
+			}
+			f := buildField(spec)
+			var err error
+			panicked := false
+			func() {
+				defer func() {
+					if r := recover(); r != nil {
+						panicked = true
+					}
+				}()
+				_, err = f.Unpack(append([]byte(nil), d.Hex()...))
+			}()
+			if panicked || err == nil {
+				return true, []Finding{{"c08-composite-overrun:" + pref, fmt.Sprintf("Unpack accepts (or panics on) a composite announcing %s bytes when %d follow its prefix", ann.String(), len(d.Hex())-w)}}
+			}
+			return true, nil
+		}
 		if d := firstOpArg(a[1].List, "unpack"); d != nil && spec.Head() == "P" {
 			f := buildField(spec)
 			n, err := f.Unpack(d.Hex())
@@ -225,6 +266,21 @@ func init() {
 			}
 		}
 		d := firstOpArg(a[1].List, "unpack")
+		if expect != nil && kind.Atom == "canon" {
+			// Pack emits each set subfield exactly once in sort order with its tag: expect = the reference bytes, built
+			// from the separately packed elements in the generator's own order
+			f2 := buildField(a[0])
+			for _, o := range a[1].List {
+				if o.Head() == "set" {
+					applyVal(f2, o.List[1])
+				}
+			}
+			p, err := f2.Pack()
+			if err != nil || xh(p) != expect.Atom {
+				return true, []Finding{{"c09-pack-order", "Pack does not emit the set subfields once each in the spec's sort order with their encoded tags"}}
+			}
+			return true, nil
+		}
 		if expect == nil || d == nil {
 			return false, nil
 		}
@@ -329,8 +385,19 @@ func init() {
 		if len(ids) == 0 || ids[0] != owner.Atom {
 			fs = append(fs, Finding{"c19-wrong-owner", fmt.Sprintf("truncation inside element %s is reported against %v", owner.Atom, ids)})
 		}
-		if subTag != nil && len(ids) > 0 && ids[0] == owner.Atom && (len(ids) < 2 || ids[1] != string(subTag.Hex())) {
-			fs = append(fs, Finding{"c19-subfield-path", fmt.Sprintf("the length prefix of subfield %s of element %s is corrupted and that subfield cannot be decoded, but the id path is %q", string(subTag.Hex()), owner.Atom, ids)})
+		if subTag != nil && len(ids) > 0 && ids[0] == owner.Atom {
+			// the note carries the tags from the element down to the corrupted subfield
+			want := []string{owner.Atom}
+			for _, t := range subTag.List {
+				want = append(want, string(t.Hex()))
+			}
+			ok := len(ids) >= len(want)
+			for i := 0; ok && i < len(want); i++ {
+				ok = ids[i] == want[i]
+			}
+			if !ok {
+				fs = append(fs, Finding{"c19-subfield-path", fmt.Sprintf("the length prefix of subfield %q of element %s is corrupted and that subfield cannot be decoded, but the id path is %q", want[1:], owner.Atom, ids)})
+			}
 		}
 		// elements before the failing one remain readable with their decoded values
 		for _, e := range prior.List {
